@@ -1,7 +1,10 @@
 """C10 Event-time timers fire exactly once, in order, and survive recovery.
 spec/Timers.tla (TimerRegistry + TimerStore + PartitionedPriorityQueue +
 SortedCache over an abstract DKV) bound to the real code by replay
-(harness/cmd/timers: registry mode and operator mode)."""
+(harness/cmd/timers: registry mode and operator mode); spec/TimersOp.tla (the
+operator's handler-event batcher between "timer due" and "TimerExpired given to
+the handler", barriers of several runners with traffic in between, crash /
+restore, re-deployment of the same Operator) bound by replay in mode opbatch."""
 import json
 import vlib
 
@@ -11,7 +14,11 @@ RULE = ("TLC proves FiredOnce/FiredOrdered/FiredDue/NoneLost/DbIsPending (+ cach
         "deviations) are executed on the real TimerRegistry/TimerStore over a real dkv.DB (restore = real DKV "
         "checkpoint + fresh DB/store/registry) and through a real operator.Operator; the timers returned by every "
         "AdvanceWatermark / delivered as TimerExpired must be exactly the pending timers at or before Min(up), each "
-        "once, in non-decreasing time")
+        "once, in non-decreasing time; TLC proves NoneLost/FiredOnce/NotEarly/CkptExact of TimersOp.tla (event batches of 1-3 "
+        "items, a checkpoint cut between the barriers of different runners, restore, redeploy) and its behaviours - plus the "
+        "witness schedules of the deviation 'batch flushed at the first barrier' - are executed on a real Operator with a "
+        "manually fired batch timer: every TimerExpired given to the handler must be pending in the timeline (as cut when "
+        "OperatorCheckpointComplete was called), and nothing due may stay pending once the batch delay has elapsed")
 
 INV = ["FiredOnce", "FiredOrdered", "FiredDue", "NoneLost", "NoLateFire", "HandlerWM", "DbIsPending", "CacheOK", "HeapOK", "TypeOK"]
 NODEV = dict(Dev_PushCountsReplace=False, Dev_PartialLoadAllIn=False, Dev_PushKeepsLater=False, Dev_ZeroWatermark=False)
@@ -103,6 +110,120 @@ def adversarial(c, prop, k, devs, n, seed, keep, hcfg=None, bfs=False):
     return res
 
 
+# ------------------------------------------------------------------ operator level (TimersOp.tla, mode opbatch) ----
+OP_INV = ["NoneLost", "FiredOnce", "NotEarly", "CkptExact", "HandlerWM", "ToldFresh", "TypeOK"]
+OP_KEYS = {1: (1, 1, 1), 2: (12, 11, 2), 3: (121, 111, 2)}   # NK -> KGCode, LenCode, NG of the concretisation
+
+
+def op_consts(**kw):
+    c = dict(NK=2, MaxT=2, NSR=2, BatchMax=2, MaxEv=3, MaxAdv=3, MaxCkpt=1, MaxRestore=1, MaxRedeploy=1, MaxTimeout=1,
+             MaxLen=100000, ScratchRedeploy=True, Sim=False, Directed=False, Dev_FlushAtFirstBarrier=False, Dev_StaleToldWM=False)
+    c.update(kw)
+    return c
+
+
+OP_GEN = dict(MaxT=4, MaxEv=8, MaxAdv=99, MaxCkpt=2, MaxRestore=2, MaxRedeploy=1, MaxTimeout=3, MaxLen=22, Sim=True)
+
+
+def op_exhaustive(c, cl, timeout=1500):
+    for k in cl:
+        r = vlib.run_tlc("TimersOp", cfg=dict(constants=k, invariants=OP_INV, view="view"), timeout=timeout)
+        c.add_tlc(r, "TimersOp exhaustive %s" % json.dumps(k))
+
+
+def op_show(b, n=40):
+    return " ".join("%s(%s)" % (s["a"], ",".join(str(s[x]) for x in ("sr", "k", "t", "last", "ck") if x in s)) for s in b[:n])
+
+
+def op_payload(c, prop, k, behs, hcfg=None):
+    kg, ln, ng = OP_KEYS[k["NK"]]
+    cfg = dict(k, Mode="opbatch", Unit=1, KGCode=kg, LenCode=ln, NG=ng, MaxBytes=25)
+    cfg.update(hcfg or {})
+    return dict(property=prop, seed=c.seed, config=cfg, behaviours=behs)
+
+
+def op_replay_sim(c, prop, k, n, seed, hcfg=None):
+    behs, r = vlib.gen_behaviours("TimersOp", k, n, 120, seed)
+    payload = op_payload(c, prop, k, behs, hcfg)
+    res = vlib.run_harness("timers", payload)
+    c.add_harness(res, payload, "TimersOp replay %s" % json.dumps(payload["config"]))
+    if behs:
+        c.sample(dict(kind="TimersOp behaviour replayed on a real Operator (batches of %d)" % k["BatchMax"], steps=op_show(behs[0])))
+    return res, payload
+
+
+def op_adversarial(c, prop, k, dev, n, seed, keep, hcfg=None, bfs=False):
+    """complete behaviours (up to the final drain) of the model WITH the deviation in which it shows (the checkpoint
+    misses a timer / a handler call is told a stale watermark); the real code must get them right"""
+    kk = dict(k, Directed=True)
+    kk[dev] = True
+    if bfs:
+        r = vlib.run_tlc("TimersOp", cfg=dict(constants=dict(kk, Sim=False), invariants=["DumpBad"], view="view"), workers=1, timeout=900,
+                         name="TimersOp-wit")
+        if not r.ok:
+            raise vlib.MachineryError("witness enumeration failed: %s %s\n%s" % (r.error, r.violated, r.out[-2000:]))
+        behs = r.behaviours
+    else:
+        behs, r = vlib.gen_behaviours("TimersOp", dict(kk, Sim=True), n, 120, seed, invariant="DumpBad")
+    behs.sort(key=lambda b: (len(b), json.dumps(b, sort_keys=True)))
+    if len(behs) > keep:
+        step = len(behs) / float(keep)
+        behs = [behs[int(i * step)] for i in range(keep)]
+    if not behs:
+        raise vlib.MachineryError("no witness schedules generated for %s" % dev)
+    payload = op_payload(c, prop, kk, behs, hcfg)
+    res = vlib.run_harness("timers", payload)
+    c.add_harness(res, payload, "TimersOp adversarial %s BatchMax=%d (%d witness schedules%s)" % (dev, k["BatchMax"], len(behs), ", all bad states" if bfs else ""))
+    return res
+
+
+def op_selftest(c, payload):
+    """binding self-test: lower the operator watermark one delivering step carries below a timer the code just
+    delivered there without complaint; the replayer must now object to exactly that step"""
+    import copy
+    for b in payload["behaviours"]:
+        for i, st in enumerate(b):
+            xs = [it for it in st.get("dl", []) if it["ty"] == "x"]
+            if st["a"] == "Adv" and xs and xs[-1]["t"] > 0:
+                bb = copy.deepcopy(b)
+                bb[i]["wm"] = xs[-1]["t"] - 1
+                res = vlib.run_harness("timers", dict(payload, behaviours=[bb]))
+                hit = [v for v in res.get("violations", []) if v["step"] == i]
+                if not hit:
+                    c.errors.append("self-test (opbatch): a corrupted operator watermark at step %d was not reported" % i)
+                c.extra["selftest_opbatch"] = "corrupted expectation reported: %s" % (hit[0]["what"] if hit else "NO")
+                return
+    c.errors.append("self-test (opbatch): no behaviour delivers a timer")
+
+
+def operator_level(c, s):
+    """C10 at the handler of a real Operator with event batches of 1..3 items (TimersOp.tla)"""
+    small = dict(MaxT=2, MaxEv=2, MaxAdv=3, MaxCkpt=1, MaxRestore=1, MaxRedeploy=0, MaxTimeout=1)
+    if c.tier == "quick":
+        op_exhaustive(c, [op_consts(BatchMax=2), op_consts(BatchMax=3, MaxRedeploy=0)])
+        n, sims = 90, [
+            (op_consts(BatchMax=2, **OP_GEN), dict()),
+            (op_consts(BatchMax=3, NSR=3, **OP_GEN), dict(RangeIdx=1)),
+            (op_consts(BatchMax=1, NK=3, **OP_GEN), dict(MaxBytes=cap(1), Unit=1000000000)),
+        ]
+        wit = [(2, 2), (3, 2)]
+    else:
+        op_exhaustive(c, [op_consts(BatchMax=1), op_consts(BatchMax=2), op_consts(BatchMax=3), op_consts(BatchMax=2, NSR=3, MaxEv=2, MaxRedeploy=0),
+                          op_consts(BatchMax=2, MaxT=3, MaxAdv=4, MaxCkpt=2, MaxRedeploy=0, ScratchRedeploy=False)], timeout=3000)
+        n, sims = 600, []
+        for bm in (1, 2, 3):
+            for nsr in (2, 3):
+                sims.append((op_consts(BatchMax=bm, NSR=nsr, NK=2 + (bm + nsr) % 2, **dict(OP_GEN, MaxLen=30, MaxEv=12)),
+                             dict(RangeIdx=(bm + nsr) % 2, Unit=[1, 1000, 1000000000][bm % 3], MaxBytes=cap(1 + bm % 3))))
+        wit = [(2, 2), (3, 2), (2, 3), (3, 3)]
+    for i, (k, h) in enumerate(sims):
+        res, payload = op_replay_sim(c, "C10", k, n, s + 70 + i, hcfg=h)
+        if i == 0:
+            op_selftest(c, payload)
+    for bm, nsr in wit:
+        op_adversarial(c, "C10", op_consts(BatchMax=bm, NSR=nsr, **dict(small, MaxEv=2 if nsr == 2 else 1)), "Dev_FlushAtFirstBarrier", 0, 0, 400, bfs=True)
+
+
 def run(c):
     s = c.seed * 1000
     if c.tier == "quick":
@@ -158,7 +279,12 @@ def run(c):
     adversarial(c, "C10", dict(small, MaxSet=4, MaxAdv=3, MaxCkpt=1, MaxRestore=1, MidSet=True), ["Dev_PushKeepsLater"], 0, 0, keep * 4, bfs=True)
     adversarial(c, "C10", dict(adv, MaxBytes=cap(1)), ["Dev_PartialLoadAllIn", "Dev_PushKeepsLater"], nadv, s + 62, keep)
     adversarial(c, "C10", dict(adv, NSR=2), ["Dev_ZeroWatermark"], nadv // 3, s + 63, keep)
+    operator_level(c, s)
     c.assumptions += [
+        "operator level (TimersOp.tla / opbatch): a runner whose barrier has arrived sends nothing until the checkpoint completes "
+        "(alignment is C02's subject); the same Operator object is only re-deployed with no checkpoint open and an empty batch "
+        "(DESIGN 7 #22 / C15 otherwise); the ledger is cut when OperatorCheckpointComplete is called; 'the batch delay has elapsed' "
+        "= the harness fires the operator's batch timer (opkit.Timer) and lets the event loop settle",
         "most replays use the DKV with its default (64 MB) memtable (nothing is flushed, restore replays the checkpoint's "
         "WAL); the runs labelled MemTable=<n> use a tiny memtable so that flushes, compactions and table-referencing "
         "checkpoints happen throughout (needs the DKV read-path repairs of C07/C08 to be present in the tree)",
